@@ -752,6 +752,8 @@ def add_lic_links(rng, case, used=()):
         if d is not None:
             k = fresh()
             kind = rng.choice(DIR_TARGETS if d else ["nested", "dotreuse", "outside"])
+            if kind == "plain" and any(c03.workaround_name(n.rsplit("/", 1)[-1]) for n in texts):
+                kind = "dotreuse"       # (a text called CAL-1.0.txt in a covered directory would meet C03's known finding about that name)
             t = dir_target(kind, k)
             at = "LICENSES/" + d if d else "LICENSES"
             if _put(case, t, pop_path(tree, at)):
